@@ -237,8 +237,23 @@ type ExploreOpts struct {
 	NoAudit    bool
 }
 
+// curExec: the execution that is running (application runs bind their scheduler to it).
+var curExec *Exec
+
 func (w *Worker) runOne(name string, prefix []int, abortAt int, opt ExploreOpts, body func(x *Exec)) (x *Exec, aborted bool) {
-	x = &Exec{w: w, prefix: prefix, dev: map[string]int{}, budget: opt.Budgets, abortAt: abortAt, explore: name}
+	budgets := opt.Budgets
+	if _, has := budgets["appsched"]; !has {
+		// schedules of a concurrent application run: at most one departure from the default schedule per execution
+		// unless the exploration says otherwise (C05 explores them all)
+		nb := map[string]int{"appsched": 1}
+		for k, v := range budgets {
+			nb[k] = v
+		}
+		budgets = nb
+	}
+	x = &Exec{w: w, prefix: prefix, dev: map[string]int{}, budget: budgets, abortAt: abortAt, explore: name}
+	curExec = x
+	defer func() { curExec = nil }()
 	appRunLog = appRunLog[:0]
 	defer func() {
 		if r := recover(); r != nil {
